@@ -21,18 +21,22 @@ SERVER_SCRIPT = os.path.join(core.ROOT, "harness", "servers", "c15_server.py")
 
 
 # ------------------------------------------------------------------ a real LSP session
-def lsp_session():
-    """Frames a real LanguageServer understands; requests interleaved with notifications that mutate state."""
+def lsp_session(threaded=False):
+    """Frames a real LanguageServer understands; requests interleaved with notifications that mutate state.
+    threaded: plus a request whose handler is registered with @server.thread() (its answer is written
+    from a pool thread, so writes come from two threads)."""
     req = lambda i, m, p: jbody({"jsonrpc": "2.0", "id": i, "method": m, "params": p})
     note = lambda m, p: jbody({"jsonrpc": "2.0", "method": m, "params": p})
     doc = "file:///c15.txt"
     chg = lambda v, t: note("textDocument/didChange", {"textDocument": {"uri": doc, "version": v},
                                                        "contentChanges": [{"text": t}]})
+    extra = [(0, b"", req("t", "t/techo", {"n": 7}))] if threaded else []
     return [
         (0, b"", req(1, "initialize", {"processId": None, "rootUri": None, "capabilities": {}})),
         (1, b"application/vscode-jsonrpc; charset=utf-8", note("initialized", {})),
         (0, b"", note("textDocument/didOpen", {"textDocument": {"uri": doc, "languageId": "x", "version": 1, "text": "h\u00e9llo\n"}})),
         (2, b"utf8", req("a", "t/echo", {"n": 1})),
+    ] + extra + [
         (0, b"", chg(2, "w\u00f6rld \u20ac\n")),
         (0, b"", req(2, "t/echo", {"n": 2})),
         (0, b"", chg(3, "final \U0001F60B\n")),
@@ -228,15 +232,30 @@ class C15(c02.C02):
         viol = list(super().extra_checks(chk) or [])       # driver sanity (+ coqchk in the thorough tier)
         cov = dict(getattr(self, "extra_coverage", {}) or {})
         logging.disable(logging.CRITICAL)
-        for name, fn in (("wrappers_inprocess", self.check_wrappers_inprocess),
-                         ("failing_writers", self.check_failing_writers),
-                         ("failing_writers_endpoint", self.check_failing_writers_endpoint),
-                         ("restart_same_object", self.check_restart),
-                         ("real_servers", self.check_real_servers)):
+        # in-process runs of library code that may block in ways the main thread cannot interrupt (a pool
+        # thread stuck on a lock keeps shutdown() and the interpreter's exit waiting) happen in a forked
+        # child under a deadline (c02.run_isolated); a sub-check that crashes does not stop the others
+        for name, fn, isolated in (("wrappers_inprocess", self.check_wrappers_inprocess, True),
+                                   ("stdio_writers", self.check_stdio_writers, True),
+                                   ("failing_writers", self.check_failing_writers, True),
+                                   ("restart_same_object", self.check_restart, True),
+                                   ("real_servers", self.check_real_servers, False),
+                                   ("failing_writers_endpoint", self.check_failing_writers_endpoint, False)):
             t0 = time.time()
-            v, n = fn(chk)
+            hung = None
+            try:
+                if isolated:
+                    v, n, hung = c02.run_isolated(fn, chk)
+                else:
+                    v, n = fn(chk)
+            except Exception as e:      # noqa
+                v, n = [{"case": {"k": name}, "impl": {"harness": "crash: %s: %s" % (type(e).__name__, str(e)[:300])},
+                         "S": None, "verdict": "violation", "suffix": "no-failing-input-found"}], 0
             cov[name] = {"cases": n, "violations": len(v), "wall_s": round(time.time() - t0, 2)}
+            if hung is not None:
+                cov[name]["hung_in"] = hung
             viol += v
+        viol.sort(key=lambda r: 1 if r.get("suffix") else 0)     # concrete failing inputs first
         self.extra_coverage = cov
         return viol
 
@@ -261,8 +280,11 @@ class C15(c02.C02):
         old = signal.signal(signal.SIGALRM, on_alarm)
         try:
             for cut in cuts:
+                if len(viol) >= 3 and c02.HANGS:
+                    break                              # the loop does not end: no point in more offsets
                 for mode in ("sync-eof", "sync-reset", "async-eof"):
                     n += 1
+                    getattr(chk, "progress", lambda d: None)({"k": "wrapper", "mode": mode, "cut": cut})
                     srv = LanguageServer("c15", "1")
                     handled = []
                     orig = srv.protocol.handle_message
@@ -273,7 +295,7 @@ class C15(c02.C02):
                     # the two private entry points of start_io: located before the observed call
                     start_sync, start_async = priv.start_io_sync(srv), priv.start_io_async(srv)
                     try:
-                        signal.setitimer(signal.ITIMER_REAL, 20)
+                        signal.setitimer(signal.ITIMER_REAL, c02.case_deadline())
                         if mode == "sync-eof":
                             start_sync(io.BytesIO(prefix), io.BytesIO())
                         elif mode == "sync-reset":
@@ -290,6 +312,7 @@ class C15(c02.C02):
                         ret = "returns"
                     except c02.HarnessTimeout:
                         ret = "hang"
+                        c02.note_hang()
                     except BaseException as e:      # noqa
                         ret = "raise:" + type(e).__name__
                     finally:
@@ -323,11 +346,12 @@ class C15(c02.C02):
                 sl = b"".join(py_frame(0, b"", jbody({"jsonrpc": "2.0", "method": "t/slow", "params": {"i": i}}))
                               for i in range(6))
                 try:
-                    signal.setitimer(signal.ITIMER_REAL, 20)
+                    signal.setitimer(signal.ITIMER_REAL, c02.case_deadline())
                     entry_fn(io.BytesIO(sl), io.BytesIO())
                     ret = "returns"
                 except c02.HarnessTimeout:
                     ret = "hang"
+                    c02.note_hang()
                 except BaseException as e:      # noqa
                     ret = "raise:" + type(e).__name__
                 finally:
@@ -344,11 +368,12 @@ class C15(c02.C02):
                 entry_fn = ENTRY[which](srv)
                 bad = b"Content-Length: " + b"0" * 4300 + b"2\r\n\r\n{}"
                 try:
-                    signal.setitimer(signal.ITIMER_REAL, 20)
+                    signal.setitimer(signal.ITIMER_REAL, c02.case_deadline())
                     entry_fn(io.BytesIO(bad), io.BytesIO())
                     ret = "returns"
                 except c02.HarnessTimeout:
                     ret = "hang"
+                    c02.note_hang()
                 except BaseException as e:      # noqa
                     ret = "raise:" + type(e).__name__
                 finally:
@@ -366,11 +391,120 @@ class C15(c02.C02):
             signal.signal(signal.SIGALRM, old)
         return viol[:3], n
 
+    # -- the stdio entry points over REAL pipes: {buffered, unbuffered} stdout x what the peer does with it
+    def check_stdio_writers(self, chk):
+        """start_io (async) and its sync variant with stdin = BufferedReader(pipe) and stdout = an
+        io.BufferedWriter (as sys.stdout.buffer is without -u) or a raw FileIO over a pipe whose other end
+        the peer reads completely / closes before anything / closes after the first answer / closes just
+        before the last request - i.e. 0, all, several or one failed write before the input ends.  S: the
+        entry point returns normally, stop flag set, pool shut down, every complete frame handled."""
+        from pygls.lsp.server import LanguageServer
+        msgs = lsp_session()
+        data = b"".join(py_frame(*m) for m in msgs)
+        ends = frame_ends(msgs)
+        viol, n = [], 0
+        cuts = [len(data), ends[3] + 9]                 # the whole session; a cut inside the body after a request
+        for entry in ("_start_io_async", "_start_io_sync"):
+            for buffered in (True, False):
+                for peer in ("reads-all", "closes-at-once", "closes-after-first-answer", "closes-before-last-request"):
+                    for cut in cuts:
+                        if c02.HANGS >= c02.MAX_HANGS:
+                            return viol[:3], n
+                        if chk.quick and peer == "reads-all" and cut != len(data):
+                            continue
+                        n += 1
+                        case = {"k": "stdio-writer", "entry": entry, "stdout": "buffered" if buffered else "raw",
+                                "peer": peer, "cut": cut}
+                        getattr(chk, "progress", lambda d: None)(case)
+                        srv = LanguageServer("c15-stdio", "1")
+                        handled = []
+                        orig = srv.protocol.handle_message
+                        srv.protocol.handle_message = lambda m, _o=orig, _h=handled: (_h.append(1), _o(m))[1]
+                        pool = srv.thread_pool
+                        r_in, w_in = os.pipe()
+                        r_out, w_out = os.pipe()
+                        stdin = os.fdopen(r_in, "rb")
+                        raw = io.FileIO(w_out, "wb")
+                        stdout = io.BufferedWriter(raw) if buffered else raw
+                        prefix = data[:cut]
+                        split = ends[0] if peer == "closes-after-first-answer" else \
+                            (max(e for e in [0] + ends[:-1] if e <= cut) if peer == "closes-before-last-request" else 0)
+                        split = min(split, len(prefix))
+
+                        def drain(fd):
+                            try:
+                                while os.read(fd, 65536):
+                                    pass
+                            except OSError:
+                                pass
+                            finally:
+                                try:
+                                    os.close(fd)
+                                except OSError:
+                                    pass
+
+                        def peer_thread(peer=peer, r_out=r_out, w_in=w_in, prefix=prefix, split=split, handled=handled):
+                            try:
+                                if peer == "reads-all":
+                                    threading.Thread(target=drain, args=(r_out,), daemon=True).start()
+                                    c02.pipe_writer(w_in, [prefix], 0)
+                                    return
+                                if peer == "closes-at-once":
+                                    os.close(r_out)
+                                    c02.pipe_writer(w_in, [prefix], 0)
+                                    return
+                                os.write(w_in, prefix[:split])
+                                if peer == "closes-after-first-answer":
+                                    os.read(r_out, 65536)             # the answer to `initialize` has arrived
+                                else:
+                                    end = time.time() + 3             # everything before the last frame is handled
+                                    while len(handled) < complete_in(msgs, split) and time.time() < end:
+                                        time.sleep(0.002)
+                                    time.sleep(0.01)
+                                os.close(r_out)                       # ... and nobody reads the rest
+                                c02.pipe_writer(w_in, [prefix[split:]], 0)
+                            except OSError:
+                                try:
+                                    os.close(w_in)
+                                except OSError:
+                                    pass
+                        pt = threading.Thread(target=peer_thread, daemon=True)
+                        pt.start()
+                        try:
+                            with c02.alarm(c02.case_deadline()):
+                                ENTRY[entry](srv)(stdin, stdout)
+                            ret = "returns"
+                        except c02.HarnessTimeout:
+                            ret = "hang"
+                            c02.note_hang()
+                        except BaseException as e:      # noqa
+                            ret = "raise:" + type(e).__name__
+                        pt.join(5)
+                        ev = priv.stop_event(srv)
+                        try:
+                            pool.submit(lambda: None); down = False
+                            pool.shutdown(wait=False)
+                        except RuntimeError:
+                            down = True
+                        for f in (stdout, raw, stdin):
+                            try:
+                                f.close()
+                            except (OSError, ValueError):
+                                pass
+                        if peer == "reads-all":
+                            pass                               # the drain thread sees EOF now that stdout is closed
+                        impl = {"ret": ret, "stop_set": bool(ev is not None and ev.is_set()), "pool_down": down,
+                                "handled": len(handled)}
+                        S = {"ret": "returns", "stop_set": True, "pool_down": True, "handled": complete_in(msgs, cut)}
+                        if impl != S:
+                            viol.append(self._viol(case, impl, S))
+        return viol[:3], n
+
     # -- (4) writers that start failing at the k-th write
     def check_failing_writers(self, chk):
         from pygls import io_
         from pygls.lsp.server import LanguageServer
-        msgs = lsp_session()
+        msgs = lsp_session(threaded=True)
         data = b"".join(py_frame(*m) for m in msgs)
         viol, n = [], 0
 
@@ -394,38 +528,52 @@ class C15(c02.C02):
             def echo(params):
                 echoed.append(getattr(params, "n", None) if not isinstance(params, dict) else params.get("n"))
                 return {"ok": True}
+            techoed = []
+
+            @srv.thread()
+            @srv.feature("t/techo")
+            def techo(params):
+                techoed.append(1)
+                return {"ok": True}
             handled = []
             orig = srv.protocol.handle_message
             srv.protocol.handle_message = lambda m, _o=orig: (handled.append(1), _o(m))[1]
 
             class W:
-                calls = 0; ok = 0
+                calls = 0; ok = 0; lock = threading.Lock()
                 def write(self, b):
-                    W.calls += 1
-                    if k is not None and W.calls >= k:
+                    with W.lock:
+                        W.calls += 1
+                        mine = W.calls
+                    if k is not None and mine >= k:
                         raise exc("writer failed")
-                    W.ok += 1
+                    with W.lock:
+                        W.ok += 1
                 def flush(self):
                     pass
                 def close(self):
                     pass
             entry_fn = ENTRY[entry](srv)
             try:
-                entry_fn(io.BytesIO(data), W())
+                with c02.alarm(c02.case_deadline()):
+                    entry_fn(io.BytesIO(data), W())
                 term = "normal"
+            except c02.HarnessTimeout:
+                term = "hang"                    # e.g. shutdown() waiting for a pool thread that never finishes
+                c02.note_hang()
             except BaseException as e:      # noqa
                 term = "raise:" + type(e).__name__
             doc = srv.workspace.text_documents.get("file:///c15.txt")
-            return {"term": term, "handled": len(handled), "echoed": echoed,
+            return {"term": term, "handled": len(handled), "echoed": echoed, "thread_echoed": len(techoed),
                     "text": None if doc is None else doc.source, "version": None if doc is None else doc.version,
                     "shutdown": priv.shutdown_flag(srv.protocol)}, W, srv
 
         base, W0, _ = run(None, OSError, True)
         nwrites = W0.calls
-        S = {"term": "normal", "handled": len(msgs), "echoed": [1, 2], "text": "final \U0001F60B\n", "version": 3,
+        S = {"term": "normal", "handled": len(msgs), "echoed": [1, 2], "thread_echoed": 1, "text": "final \U0001F60B\n", "version": 3,
              "shutdown": True}
         n += 1
-        if base != S or nwrites < 4:
+        if base != S or nwrites < 5:
             viol.append(self._viol({"k": "failing-writer", "from": None}, dict(base, writes=nwrites), S))
         excs = [BrokenPipeError, ConnectionResetError, OSError, ValueError]
         for k in range(1, nwrites + 2):
@@ -434,7 +582,11 @@ class C15(c02.C02):
                     for ei, entry in enumerate(("_start_io_async", "_start_io_sync")):
                         if chk.quick and (k + excs.index(exc) + ei) % 2:
                             continue                # quick tier: alternate the two wrappers
+                        if c02.HANGS >= c02.MAX_HANGS:
+                            return viol[:3], n
                         n += 1
+                        getattr(chk, "progress", lambda d: None)({"k": "failing-writer", "from": k, "exc": exc.__name__,
+                                                                  "hook": flavour, "entry": entry})
                         impl, W, srv = run(k, exc, flavour == "quiet-hook", flavour == "raising-hook", entry)
                         bad = impl != S
                         extra = {}
@@ -561,6 +713,7 @@ class C15(c02.C02):
         # the client stops reading: the server's writes fail with a real BrokenPipeError, inbound messages still count
         jobs.append(("stdio", "stdout-broken", len(data)))
         env = dict(os.environ, PYTHONPATH=core.REPO, PYTHONHASHSEED="0")
+        env.pop("PYTHONUNBUFFERED", None)      # the child's sys.stdout.buffer must be a real BufferedWriter
         results = [None] * len(jobs)
         lock = threading.Lock()
         it = iter(range(len(jobs)))
